@@ -6,7 +6,9 @@
    how long the OS takes to schedule a thread, park/unpark, the accuracy of
    recv_timeout - is not claimed. *)
 From DustDDS Require Import Base.Machine Sched.TimerModel Sched.TimerProofs
-                            Sched.TimerBlockModel Sched.TimerBlockProofs.
+                            Sched.TimerBlockModel Sched.TimerBlockProofs
+                            Sched.TimerExecModel Sched.TimerExecProofs
+                            Sched.TimerCorr Sched.TimerCorrProofs.
 Open Scope Z_scope.
 
 (* A sleep never completes before its deadline: whenever Sleep::poll returned Ready
@@ -77,6 +79,20 @@ Theorem C42_due_entries_get_woken : forall ops,
     (exists lim, pc s' = Receiving lim (clock s)) /\ clock s' = clock s.
 Proof. exact due_entries_get_woken. Qed.
 
+(* TimerHeap ordering: the entry the timer thread pops and wakes is due and has a
+   minimal deadline among the whole heap. *)
+Theorem C42_wakes_in_deadline_order : forall s tok w,
+  snd (step s (TFire tok)) = OWoken w ->
+  In w (heap s) /\ w_dl w < clock s /\ forall x, In x (heap s) -> w_dl w <= w_dl x.
+Proof. exact fire_pops_minimum. Qed.
+
+(* TimerHeap removal: consuming Cancel(id) removes every entry of id and nothing else. *)
+Theorem C42_cancel_step_removes : forall s id q lim seen,
+  pc s = Receiving lim seen -> queue s = MCancel id :: q ->
+  let s' := fst (step s TRecv) in
+  (forall x, In x (heap s') <-> In x (heap s) /\ w_id x <> id) /\ queue s' = q.
+Proof. exact cancel_step_removes. Qed.
+
 (* The send in Sleep::poll ("Shouldn't fail to send") never fails: the timer thread
    only leaves its loop when no Sleep and no handle is left. *)
 Theorem C42_no_send_failure : forall ops, ~ In EvPanic (log (run ops init)).
@@ -137,6 +153,32 @@ Theorem C42_block_timeout_completes : forall s lim,
   exists at_, b_pc (brun [BRecvOk; BPoll] s) = BDone (BOk (b_val s)) false at_.
 Proof. exact block_timeout_completes. Qed.
 
+(* Executor join handshake (ExecutorTaskHandle::join against the executor thread, all
+   interleavings of their atomic steps): once the joiner has gone to sleep and the
+   executor has done its take-and-wake, the joiner HAS been unparked (no lost wake-up);
+   join's future is Ready only for a finished task; the executor never polls a task's
+   future again after it returned Ready. *)
+Theorem C42_join_handshake : forall ops,
+  let s := xrun ops xinit in
+  (x_jpc s = JPending -> x_epc s = EDone -> x_woken s = true) /\
+  (x_jpc s = JReady -> x_fin s = true) /\
+  x_polls_after_fin s = 0.
+Proof. exact join_handshake. Qed.
+
+Example C42_nonvacuous_join :
+  let s := xrun [J1; J2; EPoll true; J3; ETake; TWake; EPoll false] xinit in
+  x_jpc s = JReady /\ x_epc s = EDone /\ x_fin s = true.
+Proof. vm_compute. auto. Qed.
+
+(* The tie: the timer-thread steps by which the correspondence run replays a recorded
+   trace (TimerCorr.consume1 / replay_fire) are the model's own TRecv / TFire steps;
+   only the unobservable loop position pc is overridden (erase forgets it). *)
+Theorem C42_replay_steps_are_model_steps :
+  (forall s lim seen, pc s = Receiving lim seen ->
+     erase (fst (do_recv (force_pc (Receiving None 0) s))) = erase (fst (step s TRecv))) /\
+  (forall s tok, pc s = Firing -> do_fire (force_pc Firing s) tok = step s (TFire tok)).
+Proof. exact (conj replay_recv_is_model_step replay_fire_is_model_step). Qed.
+
 (* non-vacuity: a reachable state with a cancelled-and-consumed sleep (never woken)
    and a sleep woken after its deadline and then Ready *)
 Example C42_nonvacuous :
@@ -159,6 +201,8 @@ Print Assumptions C42_woken_then_ready.
 Print Assumptions C42_fires_when_due.
 Print Assumptions C42_timer_waits_until_next_deadline.
 Print Assumptions C42_due_entries_get_woken.
+Print Assumptions C42_wakes_in_deadline_order.
+Print Assumptions C42_cancel_step_removes.
 Print Assumptions C42_no_send_failure.
 Print Assumptions C42_cancel_removes_all.
 Print Assumptions C42_drop_window_exists.
@@ -167,3 +211,5 @@ Print Assumptions C42_block_timeout_ok_is_output.
 Print Assumptions C42_block_timeout_only_late.
 Print Assumptions C42_block_timeout_unseen_wake_refutes.
 Print Assumptions C42_block_timeout_completes.
+Print Assumptions C42_join_handshake.
+Print Assumptions C42_replay_steps_are_model_steps.
